@@ -150,13 +150,17 @@ def r3_no_such_content(cx):
 def r4_input_file(cx):
     F = cx.F
     f = F.one(impl_self="creator::InputFile", item="read", trait="Read", closure=False)
-    b = F.body(f)
+    b = F.deep_body(f, only=r"creator::InputFile::")   # InputFile's own accessors (local_position, ...) are transparent
     rd = b.calls(r"std::fs::File as std::io::Read>::read$")
     ok = len(rd) == 1
     if ok:
         o = b.origin_calls(rd[0][1]["args"][1])
-        mins = [t for _, t in o if call_is(t, r"cmp::min")]
-        ok = len(mins) == 1 and ("field", "len") in b.origins(mins[0]["args"][1]) and any(call_is(t, r"InputFile::local_position$") for _, t in b.origin_calls(mins[0]["args"][1]))
+        mins = [t for _, t in o if call_is(t, r"cmp::min(::<.*>)?$", r"Ord>::min$")]
+        ok = len(mins) == 1
+        if ok:
+            mo = b.origins(mins[0]["args"][0]) | b.origins(mins[0]["args"][1])
+            # min(buf.len(), len - (position - origin))
+            ok = {("field", "len"), ("field", "position"), ("field", "origin"), ("param", 2)} <= mo
     cx.ob("R4", "R4/read-capped", ok, f, "InputFile::read hands File::read a buffer of at most min(buf.len(), len - local_position)")
     g = F.one(impl_self="creator::InputFile", item="get_file_source", closure=False)
     gb = F.body(g)
@@ -455,7 +459,10 @@ def r11_blob_extraction(cx):
     gb = F.body(g)
     push = gb.calls(r"Vec::<bases::types::offset::Offset>::push$")
     zero = gb.calls(r"Offset::zero$")
-    ok = len(push) == 1 and len(zero) == 1 and not _in_loop(gb, push[0][0]) and _in_loop(gb, zero[0][0])
+    # the terminal element is pushed once after the loop (elements stored inside the loop -- by `push` or by writing
+    # into the spare capacity -- are the implicit 0 and the stored end offsets)
+    push = [p for p in push if not _in_loop(gb, p[0])]
+    ok = len(push) == 1 and len(zero) == 1 and _in_loop(gb, zero[0][0])
     if ok:
         o = gb.origins(push[0][1]["args"][1])
         rd = sorted(i for i, t in gb.calls(r"Parser>::read_usized$") if not _in_loop(gb, i))
@@ -482,25 +489,31 @@ def r12_address_resolution(cx):
         ok = ("param", 2) in b.origins(ci[0][1]["args"][1]) and ("field", "cluster_index") in o1 and any(x == ("call", ci[0][0]) for x in o1) \
             and ("field", "blob_index") in o2 and any(x == ("call", ci[0][0]) for x in o2) and any(x == ("call", gc[0][0]) for x in b.origins(gb_[0][1]["args"][0]))
     cx.ob("R12", "R12/get_content", ok, f, "get_content(i): content_infos[i] -> get_cluster(info.cluster_index) -> cluster.get_bytes(info.blob_index)")
-    g = F.one(impl_self="ContentPack", item="_get_cluster", closure=False)
-    gb = F.body(g)
-    cp = [(i, t) for i, t in gb.calls(r"IndexTrait.*>::index$|ArrayReader<.*>::index$") if ("field", "cluster_ptrs") in gb.origins(t["args"][0], through_calls=False)]
-    pd = gb.calls(r"Reader::parse_data_block::<.*Cluster>$")
-    ok = len(cp) == 1 and len(pd) == 1 and ("param", 2) in gb.origins(cp[0][1]["args"][1]) and any(x == ("call", cp[0][0]) for x in gb.origins(pd[0][1]["args"][1]))
-    cx.ob("R12", "R12/_get_cluster", ok, g, "_get_cluster(c): parse_data_block::<Cluster>(cluster_ptrs[c])")
     h = F.one(impl_self="ContentPack", item="get_cluster", closure=False)
     hb = F.body(h)
     tg = hb.calls(r"LruCache<.*>::try_get_or_insert|LruCache::<.*>::try_get_or_insert")
     ok = len(tg) == 1 and ("param", 2) in hb.origins(tg[0][1]["args"][1])
+    loader_ok = False
     if ok:
-        cl = [c for c in F.closures_of(h) if "blocks" in c and F.body(c).calls(r"ContentPack::_get_cluster$")]
+        # the miss handler: the closure given to the cache, seen with ContentPack's own helpers inlined
+        cl = []
+        for c in F.closures_of(h):
+            if "blocks" not in c:
+                continue
+            cb = F.deep_body(c, only=r"content_pack::ContentPack")
+            if cb.calls(r"Reader::parse_data_block::<.*Cluster>$"):
+                cl.append((c, cb))
         ok = len(cl) == 1
         if ok:
-            cb = F.body(cl[0])
-            t = cb.calls(r"ContentPack::_get_cluster$")[0][1]
+            c, cb = cl[0]
+            cp = [(i, t) for i, t in cb.calls(r"IndexTrait.*>::index$|ArrayReader<.*>::index$") if ("field", "cluster_ptrs") in cb.origins(t["args"][0], through_calls=False)]
+            pd = cb.calls(r"Reader::parse_data_block::<.*Cluster>$")
+            # parse_data_block::<Cluster>(cluster_ptrs[c]) with c captured from the environment of the closure
+            loader_ok = len(cp) == 1 and len(pd) == 1 and ("param", 1) in cb.origins(cp[0][1]["args"][1]) and any(x == ("call", cp[0][0]) for x in cb.origins(pd[0][1]["args"][1]))
             # the closure loads the same index it is cached under: both captured from the parameter
-            caps = [s for blk in hb.blocks for s in blk["s"] if s["k"] == "assign" and s["rv"]["k"] == "agg" and s["rv"].get("closure_fn") == cl[0]["id"]]
+            caps = [st for blk in hb.blocks for st in blk["s"] if st["k"] == "assign" and st["rv"]["k"] == "agg" and st["rv"].get("closure_fn") == c["id"]]
             ok = len(caps) == 1 and any(("param", 2) in hb.origins(fo) for fo in caps[0]["rv"]["fields"])
+    cx.ob("R12", "R12/_get_cluster", loader_ok, h, "the miss handler of the cluster cache loads parse_data_block::<Cluster>(cluster_ptrs[c])")
     cx.ob("R12", "R12/cache-key-is-loaded-index", ok, h, "the cluster cache is keyed by the cluster index that the miss handler loads")
 
 
